@@ -196,6 +196,11 @@ def sweep(seed: int = 0, stride: int = 4, max_classes: int = 3, jobs: int = 16, 
             tasks.append((f"hierarchy {shape}", text, TARGETS))
     for what, text in signature_models():
         tasks.append((what, text, TARGETS))
+    # texts that are hostile for literals / comments and constants of every primitive type (native/c20java.py)
+    from native import c20java
+    for ascii_only in (False, True):
+        for what, text in c20java._models(ascii_only)[:3]:
+            tasks.append((what + (" (ASCII only)" if ascii_only else ""), text, TARGETS))
     for p in sorted((repo / "dev" / "test_data" / "common_meta_models").glob("*.py")):
         if p.stat().st_size < 6000:
             tasks.append((str(p.relative_to(repo)), p.read_text(encoding="utf-8"), TARGETS))
